@@ -118,6 +118,8 @@ class MarginMonitor(monitor.Recorder):
     def post_Broker_holdings_weights(self, b, a, k, tok, res, exc):
         if not self.active or exc is not None or not self._all_quoted(b):
             return
+        for c in self.contracts:
+            self._margin_ok(b, c, "weights")
         total, gross = self._decomposition(b)
         hq = b.holdings_quantity
         for c, w in res.items():
@@ -189,13 +191,40 @@ def history(ctx, props):
         sp = rng.choice([0, 0, 1e-4, 1e-2, 0.1])
         bid = mid[c] * (1 - sp / 2)
         ask = mid[c] * (1 + sp / 2)
+        if c in led.quotes and rng.random() < 0.2:
+            # only one side of the book moves (the other keeps its exact previous value)
+            ob, oa = led.quotes[c]
+            if rng.random() < 0.5:
+                bid, ask = ob, max(ob, oa * math.exp(rng.gauss(0, 0.01)))
+            else:
+                bid, ask = min(oa, ob * math.exp(rng.gauss(0, 0.01))), oa
+            mid[c] = (bid + ask) / 2
+            ctx.cat("quote:one-side-only")
         led.quote(c, bid, ask)
-        ex.process_EventNBBO(EventNBBO(t, c, bid, ask))
+        if rng.random() < 0.3:
+            # finite displayed sizes (smaller than the orders): prices, not sizes, drive the accounting
+            ex.process_EventNBBO(EventNBBO(t, c, bid, ask, rng.choice([1.0, 100.0]), rng.choice([1.0, 200.0])))
+            ctx.cat("quote:finite-sizes")
+        else:
+            ex.process_EventNBBO(EventNBBO(t, c, bid, ask))
         return bid, ask
 
     for c in cs:
         quote(c)
 
+    # a SECOND account on the same exchange holding the opposite position in the first margined
+    # contract: its valuations interleave with the first account's and must not disturb either
+    other = None
+    marg = [c for c in cs if gen.is_margined(c)]
+    if marg and rng.random() < 0.25:
+        oc = marg[0]
+        other = Broker(ex, deposit=dep, fees=fees)
+        oled = Ledger(dep, fees)
+        oq = -rng.choice([-1, 1]) * 0.3 * dep / (mid[oc] * oc.multiplier)
+        oled.quotes = led.quotes            # same market
+        other.transact(Trade(t, oc, oq, ex[oc].bid_price, ex[oc].ask_price, fees))
+        oled.trade(oc, oq)
+        ctx.cat("second-account-same-exchange")
     mon = MarginMonitor(ctx, cs, active="C05" in props)
     with mon:
         v_prev = b.net_liquidation_value(False)
@@ -385,6 +414,12 @@ def history(ctx, props):
                                       contract=c.symbol, got=got_q, want=x)
                         if c not in tmap or x == 0:
                             ctx.check("C03:untargeted-closed", got_q == 0.0, contract=c.symbol, got=got_q)
+            if op == "quote" and rng.random() < 0.3:
+                # no valuation now: whatever comes next (weights, context, a trade, a rebalance) is the
+                # first thing to see the new quote
+                ctx.cat("quote:valuation-deferred")
+                v_prev = led.nlv()
+                continue
             # ---- identity after every operation -------------------------------- #
             got = b.net_liquidation_value(False)
             want = led.nlv()
@@ -408,6 +443,12 @@ def history(ctx, props):
             if len(margined_open) >= 2 or any(led.pos[c] < 0 for c in margined_open):
                 nt05 = True
             v_prev = got
+            if other is not None and rng.random() < 0.6:
+                mon.active, keep = False, mon.active
+                ov = other.net_liquidation_value(False)
+                mon.active = keep
+                if "C01" in props or "C05" in props:
+                    ctx.check("C01:second-account-identity", abs(ov - oled.nlv()) <= REL * oled.scale(), got=ov, want=oled.nlv(), i=i)
     ctx.cat("snaps:{}".format(min(led.snaps, 3)))
     ctx.notes['nt01'] = nontrivial
     ctx.notes['nt05'] = nt05
